@@ -56,7 +56,7 @@ def main():
                                "(real C code in-process under ASan/UBSan vs compiled Lean driver on the same op lines)"}],
         "checks": checks,
         "not_applicable": na,
-        "notes": "See DESIGN.md. known_findings.json lists genuine defects of the pinned tree (open ones print KNOWN-FINDING).",
+        "notes": "See DESIGN.md section 0 (as built). The known-findings file is the directory findings/ (one JSON per finding, committed, never written at run time): open entries print KNOWN-FINDING, fixed entries suppress nothing. Seeded breaking changes and which check catches them: seeded/ and DESIGN.md 0.3.",
     }
     with open(os.path.join(VERIF, "MANIFEST.json"), "w") as f:
         json.dump(man, f, indent=1)
